@@ -103,6 +103,9 @@ func searchAvoiding(fn *ssa.Function, from ssa.Instruction, target, barrier func
 	}
 	var work []start
 	seen := map[*ssa.BasicBlock]bool{}
+	if target == nil {
+		return nil
+	}
 	if from == nil {
 		if len(fn.Blocks) == 0 {
 			return nil
